@@ -90,6 +90,10 @@ namespace osmium {
             public:
                 bool is_outer() const noexcept { return !m_outer_ring; }
                 const std::vector<ProtoRing*>& inner_rings() const noexcept { return m_inner; }
+                void add_inner_ring(ProtoRing* ring) { m_inner.push_back(ring); }
+                void set_outer_ring(ProtoRing* outer_ring) noexcept { m_outer_ring = outer_ring; }
+                void reset() { m_outer_ring = nullptr; }                                          // A2: inner rings kept
+                int64_t sum() const noexcept { return m_sum; }
                 inline void add_segment_back(NodeRefSegment* segment);
                 inline void join_backward(ProtoRing& other);
                 inline void reverse();
@@ -268,6 +272,33 @@ namespace osmium {
                     return true;                                                                 // P2: open rings accepted
                 }
 
+                struct candidate {
+                    int64_t sum;
+                };
+
+                void keep_extremes(std::vector<candidate>& candidates, const candidate& c) {
+                    if (c.sum < candidates.front().sum) {
+                        candidates.front() = c;
+                    } else if (c.sum > candidates.front().sum) {                                 // A3: compares with the wrong slot
+                        candidates.back() = c;
+                    }
+                }
+
+                void classify_tentatively() {
+                    for (auto& ring : m_rings) {
+                        if (!ring.is_outer()) {
+                            continue;
+                        }
+                        m_rings.front().add_inner_ring(&ring);
+                        ring.set_outer_ring(&m_rings.front());
+                    }
+                    for (auto& ring : m_rings) {
+                        ring.reset();
+                    }
+                    std::vector<candidate> candidates{candidate{0}, candidate{1}};
+                    keep_extremes(candidates, candidate{2});
+                }
+
                 void create_rings_simple_case() {
                     for (const slocation& sl : m_locations) {
                         if (!m_segment_list[sl.item].is_done()) {
@@ -348,6 +379,7 @@ namespace osmium {
                         return false;
                     }
                     create_rings_simple_case();
+                    classify_tentatively();
                     return true;
                 }
             };
